@@ -267,6 +267,59 @@ Definition replicate_ops (phases : list rphase) (src dst : bucket) (id : N) : li
       else run_phases (map (replicate_phase src dst id om) phases)
   end.
 
+
+(* ---- two actors: ensureBlockIsReplicated origin -> target while block.Delete runs on the origin.
+   [pend]: the deleter's operations, each with the number of the replicator's origin operation
+   (0: Get meta.json, 1: Iter chunks/, 2..: the Gets) right before which it takes effect. ---- *)
+Definition pending := list (nat * bop).
+
+Fixpoint adv (src : bucket) (pend : pending) (n : nat) : bucket * pending :=
+  match pend with
+  | (k, o) :: r => if Nat.leb k n then adv (bapply src o) r n else (src, pend)
+  | [] => (src, [])
+  end.
+
+(* ensureObjectReplicated for each name in turn, the origin changing underneath: Some = all done
+   (origin state, pending deletions and origin-operation counter afterwards), None = a Get found
+   the object gone: the replicator returns the error *)
+Fixpoint rd_copy (src dst : bucket) (pend : pending) (n : nat) (ks : list key) (acc : list bop)
+  : list bop * option (bucket * pending * nat) :=
+  match ks with
+  | [] => (acc, Some (src, pend, n))
+  | k :: r =>
+      if bhas dst k then rd_copy src dst pend n r acc
+      else let (src', pend') := adv src pend n in
+           match bget src' k with
+           | None => (acc, None)
+           | Some o => rd_copy src' dst pend' (S n) r (acc ++ [Up k o])
+           end
+  end.
+
+Definition repdel_ops (src dst : bucket) (id : N) (pend : pending) : list bop * bool :=
+  let (s0, p0) := adv src pend 0 in
+  match bget s0 (id, FMeta) with
+  | None => ([], false)
+  | Some om =>
+      if same_content om (bget dst (id, FMeta)) then ([], true)
+      else
+        let (s1, p1) := adv s0 p0 1 in
+        let cks := filter (fun k => is_chunk (snd k)) (block_keys s1 id) in
+        match rd_copy s1 dst p1 2 (cks ++ [(id, FIndex)]) [] with
+        | (acc, None) => (acc, false)
+        | (acc, Some _) => (acc ++ [Up (id, FMeta) om], true)
+        end
+  end.
+
+(* the deleter removes the index before any chunk file (the in-memory bucket lists files before
+   directories; S3/GCS list "chunks/" before "index") *)
+Fixpoint index_first (order : list file) : bool :=
+  match order with
+  | [] => true
+  | FIndex :: _ => true
+  | FChunk _ :: _ => false
+  | _ :: r => index_first r
+  end.
+
 (* ---- property C28 on a bucket listing (boolean, evaluated on the real bucket) ---- *)
 
 (* a block whose meta.json is present has every file that meta.json lists, with the recorded size *)
